@@ -480,10 +480,15 @@ def rule_order_discriminated_members(ctx):
     it reads whatever realloc left there (first-order configurations), and decisions taken on it are arbitrary."""
     tus = cfront.load_tus()
     ctor_sets = {}
+    from .. import normal as _normal
     for c, tu in tus.items():
+        ref_ = _normal.reference_names(c)
         for fname, fn in tu.funcs.items():
             if cfront.basename(fn.get('_locfile') or fn.get('_file')) != c:
                 continue
+            if fn.get('storageClass') == 'static' and ref_ and fname not in ref_:
+                continue          # a new file-local helper: seen inlined in its callers
+            fn = tu.func(fname)
             assigned = {}
             for e in walk(cfront.body(fn)):
                 if is_assign(e) and e['opcode'] == '=':
@@ -505,11 +510,17 @@ def rule_order_discriminated_members(ctx):
         for fname, fn in sorted(tu.funcs.items()):
             if cfront.basename(fn.get('_locfile') or fn.get('_file')) != c or fname in ctor_sets:
                 continue
+            ref_ = _normal.reference_names(c)
+            if fn.get('storageClass') == 'static' and ref_ and fname not in ref_:
+                continue
+            written = {id(strip(a_['inner'][0])) for a_ in walk(cfront.body(fn)) if is_assign(a_) and a_['opcode'] == '='}
             from . import pathcond
             conds = pathcond.conditions(fn)
             for e in walk(cfront.body(fn)):
                 if e.get('kind') != 'MemberExpr' or e['name'] not in partial or 'reb_variational_configuration' not in qtype(strip(e['inner'][0])):
                     continue
+                if id(e) in written:
+                    continue          # a store, not a read
                 n += 1
                 base = render(e['inner'][0]).replace(' ', '')
                 stack = conds.get(id(e), [])
